@@ -374,7 +374,7 @@ pub fn dense_case(case: &mut Case) {
 }
 
 pub fn run(ctx: &mut Ctx) {
-    ctx.rule = "Vector clocks: random vectors (length 0-7, components 0-3 or large, trailing zeros) and related \
+    ctx.rule = "Vector clocks: random vectors (length 0-7, components 0-3, below 10^6, or from the whole u32 range clustered around 2^31 and u32::MAX; trailing zeros) and related \
         variants (padded, stripped, one component +-1, swapped neighbours); each case checks a single clock, two \
         pairs and a triple against an independent component-wise model (order, equality, hash stream, fingerprint, \
         merge_max as least upper bound, incremented). Thorough adds all pairs of vectors of length <= 4 over \
